@@ -931,6 +931,7 @@ class MapAsyncNode(Segment):
         g['awaited'] = VInt(z3.Int('awaited0'))
         I.st.assume(z3.And(g['awaited'].t >= 0, g['awaited'].t <= 1))
         g['created'] = VTuple([])
+        g['insert_job_args'] = VTuple([])
         g['gathered'] = VTuple([])
         g['stopped_called'] = VBool(False)
         return {'func': VCallable('func'), 'args': ARGS, 'kwargs': KWARGS,
@@ -960,6 +961,20 @@ class MapAsyncNode(Segment):
             g = I.st.ghost
             g['q_get'] = VInt(g['q_get'].t + 1)
             return VAw(z3.Const(sym.fresh_name('aget'), sym.Aw))
+
+        def put_nowait(I, recv, args, kwargs):
+            # asyncio.Queue.put_nowait: appends when there is room, else raises QueueFull
+            g = I.st.ghost
+            if not I.branch(z3.Length(g['Q'].t) < g['p'].t):
+                raise PyRaise(VExc('QueueFull'))
+            g['Q'] = VSeq(z3.Concat(g['Q'].t, z3.Unit(I.as_elem(args[0]))), K_ELEM)
+            return NONE
+
+        def qsize(I, recv, args, kwargs):
+            return VInt(z3.Length(I.st.ghost['Q'].t))
+
+        def empty(I, recv, args, kwargs):
+            return VBool(z3.Length(I.st.ghost['Q'].t) == 0)
 
         def task_done(I, recv, args, kwargs):
             return NONE
@@ -998,6 +1013,7 @@ class MapAsyncNode(Segment):
         def work_cb(I, recv, args, kwargs):
             return VAw(z3.Const(sym.fresh_name('work_cb_coro'), sym.Aw))
         d.update({'AQueue.full': full, 'AQueue.put': put, 'AQueue.get': get, 'AQueue.task_done': task_done,
+                  'AQueue.put_nowait': put_nowait, 'AQueue.qsize': qsize, 'AQueue.empty': empty,
                   'Event.is_set': is_set, 'map_async._create_task': create_task, 'map_async._insert_job': insert_job,
                   'map_async._wait_for_work_slot': wait_slot, 'map_async.stop': stop,
                   'map_async.work_callback': work_cb})
@@ -1031,7 +1047,7 @@ class MapAsyncUpdate(MapAsyncNode):
 
     def clauses(self):
         return [Clause('C03.returns_the_insert_job_task', ['C03', 'C02'], when='return',
-                       text='len(created) == 1 and result == created[0] and insert_job_args[0] == x',
+                       text='len(created) == 1 and result == created[0] and len(insert_job_args) == 2 and insert_job_args[0] == x',
                        note='the emitter waits until the job has entered the bounded work queue'),
                 Clause('C04.holds_while_job_not_yet_queued', ['C04'], when='normal', text='delta >= occ(metadata)',
                        note='H1: update returned to the emitter while the element only lives in a task that has not run yet'),
@@ -1199,3 +1215,89 @@ class MapAsyncWorkerAfterGather(MapAsyncNode):
 from pyvc.sym import VExc
 ALL += [MapAsyncUpdate, MapAsyncInsertJob, MapAsyncInsertJobResumed, MapAsyncWorkerTake, MapAsyncWorkerResult,
         MapAsyncWorkerFailed, MapAsyncWorkerAfterGather]
+
+
+# --------------------------------------------------------------------------- timed_window_unique.cb (C08, C02, C05, C10)
+from .c_nodes_keyed import dict_spec_funcs
+from pyvc.state import DictCell as _DictCell
+
+_ElemArr = z3.ArraySort(sym.Elem, sym.Elem)
+_MdArr = z3.ArraySort(sym.Elem, sym.SeqMdS)
+
+
+class TimedWindowUniqueNode(Segment):
+    cls = 'timed_window_unique'
+    held_text = 'occ(vals(self._metadata_buffer))'
+    data_fields = ('_buffer', '_metadata_buffer')
+    assumptions = TimedWindowNode.assumptions
+
+    def make_self(self, I):
+        iv = z3.Real('interval')
+        I.st.assume(iv >= 0)
+        K = z3.Const('keys0', sym.SeqElemS)
+        buf = I.st.new_dict(_DictCell(K, z3.Const('bufvals0', _ElemArr), K_ELEM, K_ELEM))
+        mdb = I.st.new_dict(_DictCell(K, z3.Const('mdvals0', _MdArr), K_ELEM, K_MD))
+        return {'interval': VReal(iv), '_buffer': buf, '_metadata_buffer': mdb, 'last': VAw(z3.Const('last0', sym.Aw)),
+                'keep': VStr('first'), 'key': VCallable('key')}
+
+    def spec_funcs(self):
+        return dict_spec_funcs(Segment.spec_funcs(self))
+
+
+class TimedWindowUniqueCbTick(TimedWindowUniqueNode):
+    """one tick: both buffers are swapped for empty ones BEFORE the batch is emitted, in the same atomic segment"""
+    method = 'cb'
+    start = 0
+    props = ['C02', 'C04', 'C05', 'C08', 'C10']
+
+    def make_locals(self, I, selfv):
+        return {'self': selfv}
+
+    def clauses(self):
+        return [Clause('C08.batch_is_the_kept_elements_since_last_tick_in_order', ['C08', 'C02'], when='yield:1',
+                       text='emitted == [tup(old(vals(self._buffer)))] and len(keys(self._buffer)) == 0',
+                       note='each kept element is emitted in exactly one batch; arrivals during the emission land in the new buffer'),
+                Clause('C10.batch_metadata', ['C10'], when='yield:1',
+                       text='emitted_md == [flat(old(vals(self._metadata_buffer)))] and len(keys(self._metadata_buffer)) == 0'),
+                Clause('C03.remembers_emission_awaitable', ['C03', 'C08'], when='yield:1', text='self.last == emit_rets[0]'),
+                Clause('C08.no_other_outcome', ['C08'], when='return', text='False'),
+                ] + self.segment_clauses() + [
+                Clause('C01.reentrancy', ['C08', 'C01', 'C05'], fn=self.reentrancy(), when='yield:1',
+                       note='the buffers are already the new, empty ones when the batch is handed downstream')]
+
+    def reentrancy(self):
+        def fn(self_, I, o, fr):
+            snaps = o.state.ghost['_snaps']
+            post = o.state.heap[self.pre_args['self'].loc]
+            fs = []
+            for s in snaps:
+                cell = s.heap[self.pre_args['self'].loc]
+                for f in self.data_fields:
+                    fs.append(values_equal_across(I, s, cell.fields[f], o.state, post.fields[f]))
+            return z3.And(fs) if fs else None
+        return fn
+
+
+class TimedWindowUniqueCbAfterSleep(TimedWindowUniqueCbTick):
+    start = 2
+
+    def make_locals(self, I, selfv):
+        return {'self': selfv}
+
+
+class TimedWindowUniqueCbAfterEmit(TimedWindowUniqueNode):
+    method = 'cb'
+    start = 1
+    props = ['C08']
+
+    def make_locals(self, I, selfv):
+        return {'self': selfv}
+
+    def clauses(self):
+        return [Clause('C08.sleeps_one_interval_between_ticks', ['C08'], when='yield:2',
+                       text='len(sleeps) == 1 and sleeps[0] == self.interval and emitted == [] and '
+                            'keys(self._buffer) == old(keys(self._buffer)) and vals(self._buffer) == old(vals(self._buffer))'),
+                ] + self.segment_clauses()
+
+
+ALL += [TimedWindowUniqueCbTick, TimedWindowUniqueCbAfterSleep, TimedWindowUniqueCbAfterEmit]
